@@ -490,6 +490,8 @@ def fresh_index(ctx, shape, tag="ix"):
             continue
         k = ctx.fresh(f"{tag}{ax}", "int")
         ctx.assume(z3.And(k >= 0, V.Z(k) < V.Z(d)), why="skolem-index")
+        if is_sym(d):
+            ctx.fold_point(k, d)       # extrema over a range of this length are bounded at this index too
         ix.append(k)
     return tuple(ix)
 
